@@ -118,9 +118,12 @@ func (r *scopeRegistry) Report(reporter StatsReporter) {
 		subscopeBucket.mu.RLock()
 
 		for name, s := range subscopeBucket.s {
+			// Read the flag before reporting: whatever was recorded before
+			// Close is then covered by this report, and only then dropped.
+			closed := s.closed.Load()
 			s.report(reporter)
 
-			if s.closed.Load() {
+			if closed {
 				r.removeWithRLock(subscopeBucket, name, s)
 				s.clearMetrics()
 			}
@@ -138,9 +141,12 @@ func (r *scopeRegistry) CachedReport() {
 		subscopeBucket.mu.RLock()
 
 		for name, s := range subscopeBucket.s {
+			// Read the flag before reporting: whatever was recorded before
+			// Close is then covered by this report, and only then dropped.
+			closed := s.closed.Load()
 			s.cachedReport()
 
-			if s.closed.Load() {
+			if closed {
 				r.removeWithRLock(subscopeBucket, name, s)
 				s.clearMetrics()
 			}
